@@ -143,7 +143,19 @@ DEFS = RATES + CDMUSIC
 
 
 # minimised past failures, run first in every tier (found by seed 6, case 39)
-CORPUS = [("corpus:model-reuse", """SOLUTION 1 case 39
+CORPUS_F = """SOLUTION 1 fluoride next to iron
+ pH 7
+ pe 4
+ units mmol/kgw
+ Na 10
+ Cl 10 charge
+ F 0.5
+ Fe 0.01
+ N(5) 0.2
+ C(4) 1
+END
+"""
+CORPUS = [("corpus:fluoride-iron", CORPUS_F), ("corpus:model-reuse", """SOLUTION 1 case 39
  temp 10
  pH 8.79106
  pe -0.249658
@@ -227,6 +239,16 @@ def gen_case(rng, k):
             S[n].append(" Fe(2) %s" % fmt(rng.uniform(0.001, 0.1)))
         if rng.random() < 0.25:
             S[n].append(" Zn %s" % fmt(rng.uniform(0.0001, 0.01)))
+        # redox-active elements at moderate pe: several valence states are listed in the dump (Fe(2)/Fe(3), N(-3)/N(0)/N(3)/N(5),
+        # Mn(2)/Mn(3)), which is what the element-named SOLUTION_MODIFY path and merge_redox need
+        if rng.random() < 0.35:
+            S[n].append(" N(5) %s" % fmt(rng.uniform(0.01, 2)))
+        if rng.random() < 0.2:
+            S[n].append(" N(-3) %s" % fmt(rng.uniform(0.01, 1)))
+        if rng.random() < 0.2:
+            S[n].append(" Mn %s" % fmt(rng.uniform(0.001, 0.05)))
+        if rng.random() < 0.15:
+            S[n].append(" F %s" % fmt(rng.uniform(0.01, 0.5)))
         if rng.random() < 0.2:
             S[n].append(" -water %s" % fmt(rng.uniform(0.2, 3)))
         if k % 9 == 4 and n == 1:
@@ -548,7 +570,19 @@ def text_diff(d1, d2):
         sm = difflib.SequenceMatcher(a=a, b=b, autojunk=False)
         for tag, i1, i2, j1, j2 in sm.get_opcodes():
             if tag != "equal":
-                out.append(("?", "?", "\n".join(a[i1:i2])[:200], "\n".join(b[j1:j2])[:200], False))
+                # entity keyword and option in force where the texts part, plus the name of the first lost / extra row
+                kw, opt = "?", "?"
+                for x in a[:i1 + 1] if i1 < len(a) else a:
+                    m = HEAD_RE.match(x)
+                    if m:
+                        kw = m.group(1)
+                    st = x.strip()
+                    if st.startswith("-") and len(st) > 1 and st[1].isalpha():
+                        opt = st[1:].split()[0]
+                row = (a[i1:i2] or b[j1:j2] or [""])[0].split()
+                if row and not row[0].startswith("-"):
+                    opt = opt + ":" + row[0]
+                out.append((kw, opt, "\n".join(a[i1:i2])[:200], "\n".join(b[j1:j2])[:200], False))
                 if len(out) > 5:
                     break
         return out
@@ -744,6 +778,14 @@ def run_round_trip(ctx, cases, static_defects, kw2cls, timeout_each=25):
         if c.kind == "gen":
             jobs.append(job(c.id + "/Ff", c.db, c.defs + c.d1 + "\nEND\n" + c.follow))
             jobs.append(job(c.id + "/Bf", c.db, c.defs + c.d1 + "\nEND\nDUMP\n -all\nEND\n", ["dump"]))
+        jobs.append(job(c.id + "/X", c.db, c.text + "\nEND\n" + c.d1 + "\nEND\nDUMP\n -all\nEND\n", ["dump"]))    # RAW onto the existing state
+        c.mode = modify_element_text(c.d1)
+        if c.mode:
+            fe, _ = followup(c.d1, [c.mode[1]], 95)
+            c.fe95 = fe
+            jobs.append(job(c.id + "/Eo", c.db, c.text + "\nEND\n" + fe))
+            jobs.append(job(c.id + "/Er", c.db, c.text + "\nEND\n" + c.mode[0] + "END\n" + fe))
+            jobs.append(job(c.id + "/Ed", c.db, c.text + "\nEND\n" + c.mode[0] + "END\nDUMP\n -all\nEND\n", ["dump"]))
         mod = modify_text(c.d1)
         c.mod = mod
         if mod:
@@ -847,6 +889,7 @@ def run_round_trip(ctx, cases, static_defects, kw2cls, timeout_each=25):
             if unexplained:
                 c.text_restored = False
                 d = unexplained[0]
+                c.restore_key = "restore:%s:-%s" % (d[0], d[1])
                 add(c, "restore:%s:-%s" % (d[0], d[1]), "state is not restored: %s -%s differs between first and second dump" % (d[0], d[1]),
                     {"first_dump": d[2].strip(), "second_dump": d[3].strip(), "n_differing_lines": len(unexplained)}, "identical lines")
         rc_ = Cc.get(c.id + "/C") or {}
@@ -973,6 +1016,57 @@ def run_round_trip(ctx, cases, static_defects, kw2cls, timeout_each=25):
                                 "text": lambda nd, pre=pre, c=c: pre + perturb(c.d1, nd) + "\nEND\n" + c.follow,
                                 "what": "follow-up RUN_CELLS differs between original and restored state (%s)" % label,
                                 "key": "followup:%s:%s" % (label, d[1]), "extra": {"followup": c.follow}})
+        # the RAW text read ONTO the existing (identical) state must give the state a read into an empty instance gives
+        rx = B.get(c.id + "/X") or {}
+        if getattr(c, "reread_ok", False) and c.d2 is not None and not rx.get("timeout"):
+            stats["raw_onto_existing"] = stats.get("raw_onto_existing", 0) + 1
+            if rx.get("rc") != 0:
+                add(c, "onto-existing:errors:%s" % err_signature(rx.get("err")), "reading the DUMP text onto the existing state raises errors",
+                    (rx.get("err") or "")[:600], "no errors")
+            elif rx.get("dump") != c.d2:
+                diffs = [d for d in text_diff(c.d2, rx.get("dump") or "") if not d[4]]
+                if diffs:
+                    d = diffs[0]
+                    add(c, "onto-existing:%s:-%s" % (d[0], d[1]), "reading the DUMP text onto the existing state gives another state than reading it into an empty instance: %s -%s" % (d[0], d[1]),
+                        {"into_empty": d[2].strip()[:200], "onto_existing": d[3].strip()[:200], "n": len(diffs)}, "identical text")
+        # SOLUTION_MODIFY with the totals given BY ELEMENT NAME (sum over the valence states of the captured state)
+        if getattr(c, "mode", None):
+            mtxt, mn, msums, multi = c.mode
+            eo, er, ed = B.get(c.id + "/Eo") or {}, B.get(c.id + "/Er") or {}, B.get(c.id + "/Ed") or {}
+            stats["modify_by_element"] = stats.get("modify_by_element", 0) + 1
+            stats["modify_by_element_multivalence_elements"] = stats.get("modify_by_element_multivalence_elements", 0) + multi
+            if ed.get("rc") == 0 and ed.get("dump"):
+                dual, sums = dual_listing(ed["dump"], mn)
+                if dual:
+                    add(c, "modify-element:dual-listing", "after SOLUTION_MODIFY %d with -totals by element name the solution lists %s both as element total and by "
+                        "valence state (the element is counted twice)" % (mn, ", ".join(dual)),
+                        {"elements": dual, "element_sums_after": {e: sums[e] for e in dual}, "element_sums_given": {e: msums.get(e) for e in dual}},
+                        "each element either as total or by valence state", {"modify": mtxt})
+                elif sums is not None:
+                    for e in sorted(msums):
+                        if not close(sums.get(e, 0.0), msums[e], 1e-12, 1e-300):
+                            add(c, "modify-element:mass", "after SOLUTION_MODIFY %d with -totals by element name the solution holds another amount of %s" % (mn, e),
+                                {"element": e, "given": msums[e], "stored": sums.get(e)}, "same moles", {"modify": mtxt})
+                            break
+            elif ed.get("rc") not in (None, 0):
+                add(c, "modify-element:error:%s" % err_signature(ed.get("err")), "SOLUTION_MODIFY with element-named totals raises errors", (ed.get("err") or "")[:600], "no errors",
+                    {"modify": mtxt})
+            if eo.get("rc") == 0 and "95" in (eo.get("tables") or {}) and not eo.get("timeout"):
+                if er.get("rc") != 0 and nonconvergence(er.get("err")):
+                    stats["followup_nonconvergence_on_restored"] = stats.get("followup_nonconvergence_on_restored", 0) + 1
+                elif er.get("rc") != 0 or "95" not in (er.get("tables") or {}):
+                    add(c, "modify-element:followup-error:%s" % err_signature(er.get("err")), "follow-up fails after SOLUTION_MODIFY with element-named totals",
+                        (er.get("err") or "")[:600], "same results", {"modify": mtxt})
+                else:
+                    teo = vlib.table_dicts(eo["tables"]["95"])
+                    d = first_diff(teo, vlib.table_dicts(er["tables"]["95"]), tol=TOL + 3 * rn_case)
+                    if isinstance(d, str):
+                        add(c, "modify-element:shape", "SOLUTION_MODIFY (element-named totals): %s" % d, d, "same table shape")
+                    elif d:
+                        pending.append({"c": c, "label": "modify", "d": d, "user": "95", "orig": teo,
+                                        "text": lambda nd, c=c: c.text + "\nEND\n" + perturb(c.mode[0], nd) + "END\n" + c.fe95,
+                                        "what": "re-instating the captured totals by ELEMENT name through SOLUTION_MODIFY gives different follow-up results",
+                                        "key": "modify-element:%s" % d[1], "extra": {"modify": mtxt}})
         # SOLUTION_MODIFY with totals / total_h / total_o / cb only
         if c.mod:
             mo, mr = B.get(c.id + "/Mo") or {}, B.get(c.id + "/Mr") or {}
@@ -1027,7 +1121,7 @@ def run_round_trip(ctx, cases, static_defects, kw2cls, timeout_each=25):
         alias = {}
         seen = {}
         for k, p in enumerate(pending):
-            sig = (p["c"].id, p["user"], p["d"][0], p["d"][1]) if p["label"] != "modify" else (p["c"].id, "modify")
+            sig = (p["c"].id, p["user"], p["d"][0], p["d"][1]) if p["label"] != "modify" else (p["c"].id, "modify", p["user"])
             if sig in seen:
                 alias[k] = seen[sig]
                 continue
@@ -1074,6 +1168,11 @@ def run_round_trip(ctx, cases, static_defects, kw2cls, timeout_each=25):
                     {"cell": desc, "deviation_with_14_digits": dev14, "effect_of_+-1e-9_mol_in_total_h_total_o_(h+,o+,h-,o-)": devs, "path": p["label"],
                      "in_memory_copy_agrees_with_original": copy_ok, "text_fully_restored": text_ok},
                     "relative difference <= 1e-7", p["extra"])
+            elif getattr(cc, "restore_key", None):
+                # the text restore of this very case is already reported as incomplete under its own key: different follow-up
+                # results are the consequence, not another finding
+                add(cc, cc.restore_key, "the state is not restored from the DUMP text and follow-up results differ: " + desc,
+                    {"cell": desc, "path": p["label"]}, "relative difference <= 1e-7", p["extra"])
             elif getattr(cc, "lost_items", None) and dev14 is not None and dev14 <= 100 * TOL * max(abs(float(a)), abs(float(b))):
                 # the restored state is known to lack a written value (an item Coq classifies as dropped/broken, reported under
                 # its own key with this input); a slight (< 1e-5) follow-up deviation is its consequence, not a new finding
@@ -1187,6 +1286,146 @@ def modify_text(d1):
     return None
 
 
+def solution_totals(d1):
+    """{n: ([(name, text value)], {total_h, total_o, cb})} for the solutions of a dump"""
+    out = {}
+    for kw, n, lines in split_entities(d1):
+        if kw != "SOLUTION_RAW" or n < 0:
+            continue
+        vals, tot, mode = {}, [], None
+        for ln in lines:
+            s = ln.split()
+            if s[0].startswith("-") and len(s[0]) > 1 and s[0][1].isalpha():
+                mode = s[0][1:]
+                if mode in ("total_h", "total_o", "cb") and len(s) > 1:
+                    vals[mode] = s[1]
+                continue
+            if mode == "totals" and len(s) == 2 and NUM_RE.match(s[1]):
+                tot.append((s[0], s[1]))
+        out[n] = (tot, vals)
+    return out
+
+
+def element_of(name):
+    return name.split("(")[0]
+
+
+def modify_element_text(d1):
+    """SOLUTION_MODIFY that re-instates the captured totals of one solution BY ELEMENT NAME (the sum over the valence states the
+    dump lists), total_h, total_o and cb unchanged.  The solution with most elements listed in >= 2 valence states is chosen.
+    Returns (text, n, {element: sum}) or None."""
+    best = None
+    for n, (tot, vals) in solution_totals(d1).items():
+        if len(vals) != 3 or not tot:
+            continue
+        by = {}
+        for nm, v in tot:
+            by.setdefault(element_of(nm), []).append((nm, float(v)))
+        multi = sum(1 for e, l in by.items() if e not in ("H", "O") and len(l) >= 2)
+        if best is None or multi > best[0]:
+            best = (multi, n, by, vals)
+    if best is None:
+        return None
+    multi, n, by, vals = best
+    L = ["SOLUTION_MODIFY %d" % n, " -total_h %s" % vals["total_h"], " -total_o %s" % vals["total_o"], " -cb %s" % vals["cb"], " -totals"]
+    sums = {}
+    for e in sorted(by):
+        if e in ("H", "O"):
+            for nm, v in by[e]:
+                L.append("  %s %.17g" % (nm, v))          # H(0), O(0): total H and O are separate members
+        else:
+            sums[e] = sum(v for _, v in by[e])
+            L.append("  %s %.17g" % (e, sums[e]))
+    return "\n".join(L) + "\n", n, sums, multi
+
+
+def dual_listing(d, n):
+    """elements of solution n of dump d that are listed both as element total and by valence state, and the element sums"""
+    st = solution_totals(d).get(n)
+    if st is None:
+        return None, None
+    names = [nm for nm, _ in st[0]]
+    dual = sorted({element_of(nm) for nm in names if "(" in nm and element_of(nm) in names and element_of(nm) not in ("H", "O")})
+    sums = {}
+    for nm, v in st[0]:
+        if element_of(nm) not in ("H", "O"):
+            sums[element_of(nm)] = sums.get(element_of(nm), 0.0) + float(v)
+    return dual, sums
+
+
+# ----------------------------------------------------------------------------- merge_redox: model vs implementation
+ND_KEYS = ["F", "Fe", "Fe(2)", "Fe(3)", "N", "N(-3)", "N(0)", "N(3)", "N(5)", "C", "C(-4)", "C(4)", "Cu", "Cu(1)", "Cu(2)", "Cl", "Ca",
+           "S", "S(-2)", "S(6)", "Mn", "Mn(2)", "Mn(3)", "M", "Na", "K", "As(3)", "As(5)", "A", "U(4)", "U(5)", "U(6)", "U", "H(0)", "O(0)", "B", "Br"]
+
+MR_HEAD = """From Coq Require Import String List.
+Require Import IPV.C10.MergeRedox.
+Import ListNotations.
+Open Scope string_scope.
+"""
+
+
+def nd_text(m):
+    return ",".join("%s=%d" % kv for kv in m)
+
+
+def merge_redox_ops(rng, n):
+    ops = []
+    for k in range(n):
+        keys = rng.sample(ND_KEYS, rng.randint(0, 9))
+        tgt = [(x, rng.randint(1, 99)) for x in keys]
+        # sources aimed at the two branches: element names whose valence states are in the target, and vice versa
+        cand = sorted({element_of(x) for x in keys} | set(rng.sample(ND_KEYS, 3)))
+        src = [(x, rng.randint(100, 199)) for x in rng.sample(cand, rng.randint(1, min(4, len(cand))))]
+        ops.append((tgt, src))
+    return ops
+
+
+def merge_redox_eval(ops):
+    """(implementation results, model results) as lists of dicts"""
+    exe = vlib.build_harness("c10_nd", ["c10_nd.cpp"])
+    with vlib.scratch("c10nd") as d:
+        f = os.path.join(d, "ops.tsv")
+        open(f, "w").write("".join("%d\t%s\t%s\n" % (k, nd_text(t), nd_text(s)) for k, (t, s) in enumerate(ops)))
+        rc, so, se = vlib.sh([exe, f], cwd=d, timeout=60)
+    impl = {}
+    for line in so.split("\n"):
+        if "\t" in line:
+            k, r = line.split("\t", 1)
+            impl[int(k)] = {kv.rsplit("=", 1)[0]: int(kv.rsplit("=", 1)[1]) for kv in r.split(",") if kv}
+    def cl(m):
+        return "[" + "; ".join("(%s, %d)" % (coq_str(k), v) for k, v in m) + "]"
+    # (the source is a std::map: merge_redox walks it in key order)
+    v = MR_HEAD + "".join("Eval vm_compute in (%d, merge_redox %s %s).\n" % (k, cl(t), cl(sorted(s))) for k, (t, s) in enumerate(ops))
+    rc2, out = vlib.coq_eval(v, timeout=300)
+    model = {}
+    if rc2 == 0:
+        for blk in re.split(r"\n\s*=\s", "\n" + out):
+            m = re.match(r"\((\d+),\s*(.*?)\)\s*:\s*nat \*", blk.strip(), flags=re.S)
+            if m:
+                model[int(m.group(1))] = {a: int(b) for a, b in re.findall(r'\(\s*"([^"]*)",\s*(\d+)\)', m.group(2))}
+    return rc, impl, rc2, model, out
+
+
+def merge_redox_corr(ctx, ops=None):
+    ops = ops if ops is not None else merge_redox_ops(ctx.rng, ctx.n(300, 3000))
+    rc, impl, rc2, model, out = merge_redox_eval(ops)
+    if rc2 != 0 or len(model) != len(ops):
+        ctx.obligation("merge_redox-model-evaluation", False, out[-1200:])
+        return
+    ctx.obligation("merge_redox-model-evaluation", True)
+    nbad = 0
+    for k, (t, s) in enumerate(ops):
+        ctx.case({"mr": nd_text(t), "s": nd_text(s)}, nontrivial=bool(t))
+        if impl.get(k) != model[k]:
+            nbad += 1
+            if nbad <= 1:
+                ctx.violation("merge_redox:model-disagrees",
+                              "cxxNameDouble::merge_redox does not do what its Gallina model (proved: an element total removes every valence-state "
+                              "entry of that element and nothing else) does: target {%s} merged with {%s}" % (nd_text(t), nd_text(s)),
+                              {"kind": "ops", "target": t, "source": s, "observed": impl.get(k), "expected": model[k]})
+    ctx.extra["merge_redox_ops"] = {"ops": len(ops), "disagreements": nbad}
+
+
 # ----------------------------------------------------------------------------- run
 def build_cases(ctx):
     cases = []
@@ -1231,6 +1470,7 @@ def run(ctx):
     kw2cls = {s["keyword"]: s["cls"] for s in sc if s.get("keyword")}
     ctx.extra["classes"] = len(sc)
     ctx.extra["writer_items"] = sum(len(s["items"]) for s in sc)
+    merge_redox_corr(ctx)
     cases = build_cases(ctx)
     findings, stats = run_round_trip(ctx, cases, static_defects, kw2cls)
     ctx.extra["input_distribution"] = stats
@@ -1280,6 +1520,9 @@ def run(ctx):
 
 def replay(ctx):
     obj = json.load(open(ctx.replay))
+    if obj.get("kind") == "ops":
+        merge_redox_corr(ctx, [([tuple(x) for x in obj["target"]], [tuple(x) for x in obj["source"]])])
+        return
     if obj.get("kind") != "input":
         # static obligation: rebuild and re-evaluate
         ok = vlib.coq_stage(ctx, "Props/Properties_C10.vo", gen=gen)
